@@ -1,6 +1,6 @@
 (* C05 - the emitted OpenQASM 2.0 replays to the same quantum state as the simulation. *)
 From Coq Require Import List Arith String.
-From Bloch Require Import Common.ListUpd Sim.SimModel Sim.Qasm Sim.QasmParse Sim.EvalQ Sim.QasmLog.
+From Bloch Require Import Common.ListUpd Sim.SimModel Sim.Qasm Sim.QasmParse Sim.EvalQ Sim.QasmLog Sim.SimReal Sim.LazyAlloc.
 Import ListNotations.
 
 (* the text is a well-formed program of the emitted subset and an independent reader recovers from it
@@ -25,6 +25,21 @@ Theorem C05_emitted_operands_in_range_and_distinct :
   let s := esim (fst (ev_run O (evq_init O) os ds)) in Forall (fun o => op_ok (nq s) o = true) (qlog s).
 Proof. exact @emitted_ops_wellformed. Qed.
 Print Assumptions C05_emitted_operands_in_range_and_distinct.
+
+(* replaying the log on a register declared up front gives the simulated state: the simulator allocates lazily (the
+   state doubles when a declaration is reached), the emitted program declares all qubits first; every operation that
+   succeeded commutes with allocation, so for every scripted history - any interleaving of declarations, gates, cx,
+   measurements and resets, refused operations included, any draws - the final simulator (register size, amplitudes,
+   measured flags, log) equals the one obtained by allocating every qubit first and then performing exactly the
+   logged operations with the same draws.  Over the reals. *)
+Theorem C05_replaying_the_log_on_a_register_declared_up_front_gives_the_simulated_state :
+  forall os,
+    (fst (sim_run Rops (sim_init Rops) os) =
+     fst (sim_run Rops (pad_many (allocs os) (sim_init Rops)) (succeeded (sim_init Rops) os))) /\
+    (map (fun o => match o with SOp q _ => [q] | SAlloc => [] end) (succeeded (sim_init Rops) os))
+    = (map (fun q => [q]) (applied Rops (sim_init Rops) os)).
+Proof. intro os. split; [exact (replay_from_scratch os) | apply succeeded_is_the_log]. Qed.
+Print Assumptions C05_replaying_the_log_on_a_register_declared_up_front_gives_the_simulated_state.
 
 Local Open Scope string_scope.
 Example ex_roundtrip :
